@@ -271,6 +271,10 @@ def _unshift(db, chk):
                accepted="events_df = series[[...]].copy() with all rows", why="de-duplicating on (pid, name, ts) collapses the samples of different streams at the same microsecond: the file no longer reproduces the per-stream series")
         if not isinstance(E, Frame):
             continue
+        o_ = E.order
+        stable = o_ is None or (isinstance(o_, tuple) and o_ and o_[0] == "sort" and o_[3] in ("stable", "mergesort"))
+        chk.ob(rule, f"[name col={has_name}] the events keep the order of the series rows (no re-sort, or a stable one)", stable, where, found=T.show_order(o_), accepted="series order",
+               why="an unstable sort by ts reorders the samples that share a timestamp: the last sample at an instant - the value the step function takes - changes")
         check_term(chk, rule, f"[name col={has_name}] counter event ts = series ts + the stored alignment shift", where, E.col("ts"),
                    [T.add(T.col(S, "ts"), ("attr", ("obj", "self"), "min_ts"))], "counter events must sit at the original, unshifted timestamps")
         ph = E.col("ph")
